@@ -15,7 +15,7 @@ import _c18_lib as L
 
 STUB_DIR = Path(__file__).resolve().parents[2] / "corpus" / "C18" / "stub"
 BOOM = ["ValueError", "KeyError", "ZeroDivisionError", "StubError", "_HiddenError", "InvalidOperation",
-        "JSONDecodeError"]
+        "JSONDecodeError", "SystemExit", "GeneratorExit", "StubAbort", "SystemExit", "KeyboardInterrupt"]
 
 
 def alias_of(module: str) -> str:
@@ -94,7 +94,11 @@ def gen_test(rng, module: str, n: int | None = None):
             kind = rng.choice(BOOM)
             extra = args() if rng.random() < 0.3 else ""
             s["code"] = f"{v} = {al}.boom('{kind}'{', ' + extra if extra else ''})"
-            if rng.random() < 0.4:
+            if kind == "KeyboardInterrupt":
+                # always declared: pytest re-raises a KeyboardInterrupt that escapes a test and aborts the
+                # whole session, so the unexpected (xfail) variant cannot be batched (see notes/C18.md)
+                s["expected"] = [kind]
+            elif rng.random() < 0.4:
                 s["expected"] = [kind] + (["TypeError"] if rng.random() < 0.3 else [])
             elif rng.random() < 0.2:
                 s["expected"] = ["OSError"]
@@ -226,6 +230,28 @@ class _Suite:
         self.test_case_chromosomes = [_Ind(t) for t in ts]
 
 
+def independent_exceptions(t, module):
+    """What each statement raises when the test case is executed statement by statement (own execution,
+    independent of the writer's re-execution): the exception type or None, for every BaseException."""
+    import libcst as cst
+    import pytest
+
+    mod = importlib.import_module(module)
+    ns = {alias_of(module): mod, "pytest": pytest, "__builtins__": __builtins__}
+    for n in dir(mod):
+        if not n.startswith("_"):
+            ns.setdefault(n, getattr(mod, n))
+    res = []
+    for st in t.statements():
+        code = cst.Module(body=[st.node]).code
+        try:
+            exec(compile(code, "<independent>", "exec"), ns)  # noqa: S102
+            res.append(None)
+        except BaseException as e:  # noqa: BLE001  (SystemExit, KeyboardInterrupt, GeneratorExit included)
+            res.append(type(e))
+    return res
+
+
 def value_names(v) -> set[str]:
     """Free names of the literal a value is rendered to (stated independently of the renderer)."""
     import enum as _enum
@@ -285,6 +311,7 @@ def write_suite(spec, outdir, testcases=None):
     tcs = testcases if testcases is not None else [build_testcase(t, module) for t in spec["tests"]]
     for t in tcs:
         t.remove_unused_variables()
+    independent = [independent_exceptions(t, module) for t in tcs]
     recorded = []
     orig = export.TestSuiteWriter._per_statement_exceptions  # noqa: SLF001
 
@@ -298,15 +325,17 @@ def write_suite(spec, outdir, testcases=None):
             _Suite(tcs), module, outdir, project_path=str(STUB_DIR), format_with_black=spec["black"],
             seed=spec["seed"])
     abstract = []
-    for t, excs in zip(tcs, recorded):
+    for t, excs, wexcs in zip(tcs, independent, recorded):
         row = []
-        for i, (st, e) in enumerate(zip(t.statements(), excs)):
+        for i, (st, e, we) in enumerate(zip(t.statements(), excs, wexcs)):
             code = cst.Module(body=[st.node]).code
             uses, binds = L.stmt_names(code)
             acc = st.accessible
             row.append({
                 "id": i, "code": code, "uses": sorted(uses), "binds": sorted(binds),
-                "exc": None if e is None else (e.__name__, None if e.__module__ == "builtins" else e.__module__),
+                "exc": None if e is None else (e.__name__, None if e.__module__ == "builtins" else e.__module__,
+                                               not issubclass(e, Exception)),
+                "exc_writer": None if we is None else we.__name__,
                 "expected": bool(e is not None and isinstance(acc, GenericCallableAccessibleObject)
                                  and e.__name__ in acc.expected_exceptions),
                 "asserts": [abstract_assertion(a, module) for a in st.assertions],
@@ -439,7 +468,8 @@ def c_exc(nm: Names, e) -> str:
     if e is None:
         return "None"
     mod = "None" if e[1] is None else f"(Some {nm.mod(e[1])})"
-    return f"(Some {{| C18.e_name := {nm.name(e[0])}; C18.e_mod := {mod} |}})"
+    base = "true" if len(e) > 2 and e[2] else "false"
+    return f"(Some {{| C18.e_name := {nm.name(e[0])}; C18.e_mod := {mod}; C18.e_base := {base} |}})"
 
 
 def c_assert(nm: Names, a) -> str:
